@@ -49,7 +49,7 @@ impl Url {
     #[verifier::external_body] pub fn host_str(&self) -> Option<&str> { unimplemented!() }
 }
 #[verifier::external_body] pub fn join_url(base: &str, path: &str) -> String { unimplemented!() }
-#[verifier::external_body] pub fn outl_codes_contains(a: &[u16], x: &u16) -> bool { /* verbatim: <[u16]>::contains */ a.contains(x) }
+#[verifier::external_body] pub fn outl_codes_contains(a: &[u16], x: &u16) -> (r: bool) ensures r == a@.contains(*x) { /* verbatim: <[u16]>::contains */ a.contains(x) }
 #[verifier::external_body] pub fn outl_domains_contains(a: &Vec<String>, x: &String) -> bool { /* verbatim: Vec<String>::contains */ a.contains(x) }
 //@@ item src/http/header.rs :: struct Header
 //@@ item src/api/examples.rs :: struct ExampleHeader
@@ -69,6 +69,9 @@ pub open spec fn loop_reported_iff_repeat(r: RedirectionLoop) -> bool {
     &&& (r.error matches Some(RedirectionError::Loop)) <==> !hops_distinct(r.hops@)
     &&& hops_distinct(r.hops@.drop_last())
 }
+// a hop of the chain is a redirect response: every recorded hop after the starting point carries one of the redirection codes
+pub open spec fn is_redirect(c: u16) -> bool { c == 301 || c == 302 || c == 307 || c == 308 }
+pub open spec fn hops_are_redirects(s: Seq<RedirectionHop>) -> bool { forall|k: int| 1 <= k < s.len() ==> is_redirect((#[trigger] s[k]).status_code) }
 impl Example {
     //@@ fn src/api/examples.rs :: impl Example / fn with_url -> r
     //@| ensures r.url == url, r.method == self.method, r.response_status_code == self.response_status_code,
@@ -83,23 +86,23 @@ impl RedirectionLoop {
     //@@ fn src/api/redirection_loop.rs :: impl RedirectionLoop / fn has_error_loop -> r
     //@| ensures r == (self.error matches Some(RedirectionError::Loop)),
     //@@ fn src/api/redirection_loop.rs :: impl RedirectionLoop / fn from_example -> r
-    //@| ensures r.hops@.len() >= 1, r.hops@.len() <= max_hops as nat + 1, r.hops@[0].url == example.url, loop_reported_iff_repeat(r),
+    //@| ensures r.hops@.len() >= 1, r.hops@.len() <= max_hops as nat + 1, r.hops@[0].url == example.url, loop_reported_iff_repeat(r), hops_are_redirects(r.hops@),
     //@@ fn src/api/redirection_loop.rs :: impl RedirectionLoop / fn compute -> r
-    //@| ensures r.hops@.len() >= 1, r.hops@.len() <= max_hops as nat + 1, r.hops@[0].url == example.url, loop_reported_iff_repeat(r),
-    //@| replace `REDIRECTION_CODES.contains(` => `outl_codes_contains(&REDIRECTION_CODES, ` :: slice::contains has no Verus spec; result unconstrained
+    //@| ensures r.hops@.len() >= 1, r.hops@.len() <= max_hops as nat + 1, r.hops@[0].url == example.url, loop_reported_iff_repeat(r), hops_are_redirects(r.hops@),
+    //@| replace `REDIRECTION_CODES.contains(` => `outl_codes_contains(&REDIRECTION_CODES, ` :: slice::contains has no Verus spec; assumed: membership in the array
     //@| replace `[301, 302].contains(` => `outl_codes_contains(&[301, 302], ` :: slice::contains has no Verus spec; result unconstrained
     //@| replace `project_domains.contains(` => `outl_domains_contains(&project_domains, ` :: Vec::contains has no Verus spec; result unconstrained
     //@| opt r5:0
     //@| loop 0: invariant_except_break hops_distinct(hops@), !(error matches Some(RedirectionError::Loop)), hops@.len() <= vf_it0_idx + 1,
     //@|   invariant hops@.len() >= 1, 0 <= vf_it0_idx <= vf_it0_rem0.len(), vf_it0.remaining() == vf_it0_rem0.skip(vf_it0_idx), vf_it0_rem0.len() == max_hops as int,
-    //@|     hops@[0].url == example.url,
-    //@|   ensures hops@.len() >= 1, hops@.len() <= max_hops as nat + 1, hops@[0].url == example.url,
+    //@|     hops@[0].url == example.url, hops_are_redirects(hops@),
+    //@|   ensures hops@.len() >= 1, hops@.len() <= max_hops as nat + 1, hops@[0].url == example.url, hops_are_redirects(hops@),
     //@|     (error matches Some(RedirectionError::Loop)) <==> !hops_distinct(hops@), hops_distinct(hops@.drop_last()),
     //@|   decreases max_hops as int - vf_it0_idx,
     //@| forlabel 2: it2
     //@| loop 2: invariant iter_ref_ok(it2.history@, it2.index@, it2.snapshot@.remaining(), hops@),
     //@|     forall|k: int| 0 <= k < it2.index@ ==> hop_key(#[trigger] hops@[k]) != (current_url@, current_method@),
-    //@|     hops_distinct(hops@), hops@.len() >= 1, hops@.len() <= vf_it0_idx, 1 <= vf_it0_idx <= max_hops as int, hops@[0].url == example.url,
+    //@|     hops_distinct(hops@), hops@.len() >= 1, hops@.len() <= vf_it0_idx, 1 <= vf_it0_idx <= max_hops as int, hops@[0].url == example.url, hops_are_redirects(hops@), is_redirect(final_status_code),
     //@|     !(error matches Some(RedirectionError::Loop)), vf_it0.remaining() == vf_it0_rem0.skip(vf_it0_idx), vf_it0_rem0.len() == max_hops as int,
     //@| loophead 2: let ghost hops0 = hops@; let ghost kk = it2.index@ as int; proof { assert(*hop == hops@[kk]); }
     //@| before `error = Some(RedirectionError::Loop);`: proof { assert(hops@.drop_last() =~= hops0); assert(hop_key(hops@[kk]) == hop_key(hops@[hops@.len() - 1])); assert(!hops_distinct(hops@)); }
